@@ -21,11 +21,14 @@ MAX_STATES = 5000
 
 
 def scope_text(tier):
-    return ('SEL-q' if tier == 'quick' else 'SEL-t') + ' (vf/enumerate.py SCOPES): all canonical specs, all choice orders, all options'
+    return ('SEL-q' if tier == 'quick' else 'SEL-t') + ' (vf/enumerate.py SCOPES) + CYC family (all edge subsets among 3 nodes x entry choices): all canonical specs, all choice orders, all options'
 
 
 def cases(tier, seed):
     for spec in en.scope_specs('SEL-q' if tier == 'quick' else 'SEL-t'):
+        yield dict(spec=spec)
+    from vf import families
+    for spec in families.cyc(tier):      # nested / overlapping cycles entered at different depths
         yield dict(spec=spec)
 
 
